@@ -1,11 +1,12 @@
 import VivModel.Model.Context
+import VivModel.Model.Services
 /-! C07 — framework services are available exactly in the states that make sense.
 
 The quantifier is the finite service × lifecycle-state matrix; the constraint table is regenerated
 from every `add_constraint` call site of the working tree (`Viv.Gen.constraints`), so each theorem
 is re-decided against what the code says now. -/
 namespace Viv.Props.C07
-open Viv.LC Viv.Ctx Viv.Gen
+open Viv.LC Viv.Ctx Viv.Gen Viv.Svc
 
 def registrationServices : List (String × String) :=
   [("framework/event.py", "self.register_listener"),
@@ -14,7 +15,8 @@ def registrationServices : List (String × String) :=
    ("framework/population/manager.py", "self.register_simulant_initializer"),
    ("framework/population/manager.py", "self.get_simulant_creator"),
    ("framework/randomness/manager.py", "self.get_randomness_stream"),
-   ("framework/lookup/manager.py", "self.build_table")]
+   ("framework/lookup/manager.py", "self.build_table"),
+   ("framework/artifact/manager.py", "self.load")]
 
 def readerServices : List (String × String) :=
   [("framework/population/manager.py", "view.get"),
@@ -27,7 +29,8 @@ def readerServices : List (String × String) :=
 
 def writerServices : List (String × String) :=
   [("framework/population/manager.py", "view.update"),
-   ("framework/randomness/manager.py", "self.register_simulants")]
+   ("framework/randomness/manager.py", "self.register_simulants"),
+   ("framework/population/manager.py", "self._create_simulants")]
 
 /-- every state named in a constraint is a declared lifecycle state (otherwise `add_constraint` raises) -/
 theorem table_states_known :
@@ -82,6 +85,789 @@ theorem wrapper_checks_current_state (m st : String) :
 theorem emit_constrained_dynamically :
     Viv.Gen.dynamicConstraints.map (fun e => (e.1, e.2.2.1, e.2.2.2.1, e.2.2.2.2)) =
       [("framework/event.py", "channel.emit", .allow, "[name]")] := by decide
+
+/-! ## The stateful model: `ConstraintMaker`, run-time `add_constraint`, handles (Model/Services.lean) -/
+
+/-! ### A. `add_constraint` on arbitrary state lists -/
+
+/-- both `allow_during` and `restrict_during` given: `ValueError`, nothing registered -/
+theorem add_both_refused (r : Reg) (o n m : String) (b : Bool) (allow restrict : List String)
+    (ha : allow ≠ []) (hr : restrict ≠ []) : addConstraint r o n m b allow restrict = .error .value := by
+  cases allow with
+  | nil => exact absurd rfl ha
+  | cons a as =>
+    cases restrict with
+    | nil => exact absurd rfl hr
+    | cons x xs => simp [addConstraint]
+
+/-- neither list given (or both empty, e.g. `allow_during=()`): `ValueError` -/
+theorem add_neither_refused (r : Reg) (o n m : String) (b : Bool) :
+    addConstraint r o n m b [] [] = .error .value := by simp [addConstraint]
+
+/-- a state that the lifecycle does not declare, in either list: `LifeCycleError` (checked before the method is looked at) -/
+theorem add_unknown_state_refused (r : Reg) (o n m : String) (b : Bool) (allow restrict : List String)
+    (hone : allow = [] ∨ restrict = []) (hsome : allow ≠ [] ∨ restrict ≠ [])
+    (s : String) (hs : s ∈ allow ++ restrict) (hunk : s ∉ states) :
+    addConstraint r o n m b allow restrict = .error .lifecycle := by
+  have h1 : ((!allow.isEmpty && !restrict.isEmpty) || (allow.isEmpty && restrict.isEmpty)) = false := by
+    rcases hone with h | h <;> rcases hsome with h' | h' <;> subst_vars <;> simp_all
+  have h2 : ((allow ++ restrict).all fun s => states.contains s) = false := by
+    rw [List.all_eq_false]
+    exact ⟨s, hs, by simpa using hunk⟩
+  unfold addConstraint
+  simp only [h1, h2]
+  simp
+
+/-- the shape of a successful `add_constraint`: exactly one new wrapper, with the complemented list -/
+theorem add_ok_shape {r r' : Reg} {o n m : String} {b : Bool} {allow restrict : List String}
+    (h : addConstraint r o n m b allow restrict = .ok r') :
+    r' = r ++ [⟨o, n, m, permittedList allow restrict⟩] ∧ b = true ∧ isDunder m = false ∧ guidTaken r n m = false ∧
+      (allow = [] ∨ restrict = []) ∧ (allow ≠ [] ∨ restrict ≠ []) ∧ (∀ s ∈ allow ++ restrict, s ∈ states) := by
+  unfold addConstraint at h
+  split at h
+  · cases h
+  · split at h
+    · cases h
+    · split at h
+      · cases h
+      · split at h
+        · cases h
+        · split at h
+          · cases h
+          · rename_i h1 h2 h3 h4 h5
+            injection h with h
+            refine ⟨h.symm, ?_, ?_, ?_, ?_, ?_, ?_⟩
+            · simpa using h3
+            · simpa using h4
+            · simpa using h5
+            · cases allow <;> cases restrict <;> simp_all
+            · cases allow <;> cases restrict <;> simp_all
+            · intro s hs
+              have h2' : ((allow ++ restrict).all fun s => states.contains s) = true := by simpa using h2
+              rw [List.all_eq_true] at h2'
+              simpa using h2' s hs
+
+
+/-! ### B. wrappers are never replaced, removed or consulted for another object -/
+
+/-- later wrappers never shadow an earlier one (`find?` takes the first) -/
+theorem find_append_stable {r : Reg} {o m : String} {e : Entry} (h : find r o m = some e) (l : Reg) :
+    find (r ++ l) o m = some e := by
+  unfold find at *
+  rw [List.find?_append, h]
+  rfl
+
+/-- the wrapper just appended is the one found when the method had none -/
+theorem find_append_new {r : Reg} {o m : String} (h : find r o m = none) (n : String) (p : List String) :
+    find (r ++ [⟨o, n, m, p⟩]) o m = some ⟨o, n, m, p⟩ := by
+  unfold find at *
+  rw [List.find?_append, h]
+  simp [List.find?]
+
+/-- a wrapper for one (object, method) pair is never found for another pair -/
+theorem find_append_other (r : Reg) (o m o' m' n : String) (p : List String) (hne : ¬ (o' = o ∧ m' = m)) :
+    find (r ++ [⟨o, n, m, p⟩]) o' m' = find r o' m' := by
+  unfold find
+  rw [List.find?_append]
+  have : List.find? (fun e => e.obj == o' && e.method == m') [(⟨o, n, m, p⟩ : Entry)] = none := by
+    simp only [List.find?]
+    have : ((o == o') && (m == m')) = false := by
+      cases h1 : (o == o') <;> cases h2 : (m == m') <;> simp_all
+    simp [this]
+  rw [this]
+  cases List.find? (fun e => e.obj == o' && e.method == m') r <;> rfl
+
+/-- a new object has no wrapper -/
+theorem find_none_of_fresh {r : Reg} {o : String} (fresh : ∀ e ∈ r, e.obj ≠ o) (m : String) : find r o m = none := by
+  unfold find
+  rw [List.find?_eq_none]
+  intro e he
+  have := fresh e he
+  simp [this]
+
+/-- `allow_during`: admitted exactly in the listed states -/
+theorem allow_exact {r r' : Reg} {o n m : String} {b : Bool} {allow : List String}
+    (h : addConstraint r o n m b allow [] = .ok r') (hnew : find r o m = none) (st : String) :
+    verdict r' o m st = allow.contains st := by
+  obtain ⟨hr, -⟩ := add_ok_shape h
+  subst hr
+  unfold verdict
+  rw [find_append_new hnew]
+  simp [permittedList]
+
+/-- `restrict_during` is complemented against the declared states: admitted exactly in the declared states
+that are not listed -/
+theorem restrict_complement {r r' : Reg} {o n m : String} {b : Bool} {restrict : List String}
+    (h : addConstraint r o n m b [] restrict = .ok r') (hnew : find r o m = none) (st : String) :
+    verdict r' o m st = (states.contains st && !restrict.contains st) := by
+  obtain ⟨hr, -, -, -, -, hne, -⟩ := add_ok_shape h
+  subst hr
+  have hre : restrict.isEmpty = false := by
+    cases restrict with
+    | nil => simp at hne
+    | cons _ _ => rfl
+  unfold verdict
+  rw [find_append_new hnew]
+  simp only [permittedList, hre]
+  cases hc : states.contains st <;> cases hd : restrict.contains st <;> simp_all [List.mem_filter]
+
+/-- constraining one method leaves every other (object, method) pair as it was; a refused `add_constraint`
+changes nothing at all (the `Except` carries no registry) -/
+theorem add_frame {r r' : Reg} {o n m : String} {b : Bool} {allow restrict : List String}
+    (h : addConstraint r o n m b allow restrict = .ok r') (o' m' : String) (hne : ¬ (o' = o ∧ m' = m)) (st : String) :
+    verdict r' o' m' st = verdict r o' m' st := by
+  obtain ⟨hr, -⟩ := add_ok_shape h
+  subst hr
+  unfold verdict
+  rw [find_append_other r o m o' m' n _ hne]
+
+/-- the second constraint on a method whose global id is taken is refused - whatever lists it brings, so a
+constraint can be neither widened nor narrowed afterwards -/
+theorem add_twice_refused {r r1 : Reg} {o n m : String} {b : Bool} {allow restrict : List String}
+    (h : addConstraint r o n m b allow restrict = .ok r1) (l : Reg) (o2 : String) (b2 : Bool) (allow2 restrict2 : List String)
+    (r2 : Reg) : addConstraint (r1 ++ l) o2 n m b2 allow2 restrict2 ≠ .ok r2 := by
+  obtain ⟨hr, -⟩ := add_ok_shape h
+  subst hr
+  intro h2
+  obtain ⟨-, -, -, hfree, -⟩ := add_ok_shape h2
+  have ht : guidTaken (r ++ [⟨o, n, m, permittedList allow restrict⟩] ++ l) n m = true := by
+    simp [guidTaken]
+  rw [ht] at hfree
+  cases hfree
+
+/-- … and with otherwise valid arguments the refusal is the `ConstraintError` -/
+theorem add_twice_constraint_error {r : Reg} {o n m : String} (allow restrict : List String)
+    (htaken : guidTaken r n m = true) (hd : isDunder m = false)
+    (hone : allow = [] ∨ restrict = []) (hsome : allow ≠ [] ∨ restrict ≠ []) (hknown : ∀ s ∈ allow ++ restrict, s ∈ states) :
+    addConstraint r o n m true allow restrict = .error .constraint := by
+  have h1 : ((!allow.isEmpty && !restrict.isEmpty) || (allow.isEmpty && restrict.isEmpty)) = false := by
+    rcases hone with h | h <;> rcases hsome with h' | h' <;> subst_vars <;> simp_all
+  have h2 : ((allow ++ restrict).all fun s => states.contains s) = true := by
+    rw [List.all_eq_true]
+    intro s hs
+    simpa using hknown s hs
+  unfold addConstraint
+  simp only [h1, h2, hd, htaken]
+  simp
+
+
+/-! ### C. the registry only grows: whatever happens later, a wrapper stays what it was -/
+
+/-- a framework call site appends to the registry (or leaves it alone) -/
+theorem fwAdd_grows {r r' : Reg} {o m file target : String} (h : fwAdd r o m file target = .ok r') :
+    ∃ l, r' = r ++ l := by
+  unfold fwAdd at h
+  split at h
+  · injection h with h; exact ⟨[], by simp [h]⟩
+  · split at h
+    · exact ⟨_, (add_ok_shape h).1⟩
+    · exact ⟨_, (add_ok_shape h).1⟩
+
+/-- … and so do all the call sites of one handle, also when one of them is refused half-way -/
+theorem fwAdds_grows (o file : String) : ∀ (ms : List (String × String)) (r : Reg), ∃ l, (fwAdds r o file ms).1 = r ++ l
+  | [], r => ⟨[], by simp [fwAdds]⟩
+  | (m, t) :: rest, r => by
+    unfold fwAdds
+    split
+    · rename_i r' h
+      obtain ⟨l1, h1⟩ := fwAdd_grows h
+      obtain ⟨l2, h2⟩ := fwAdds_grows o file rest r'
+      exact ⟨l1 ++ l2, by rw [h2, h1, List.append_assoc]⟩
+    · exact ⟨[], by simp⟩
+
+/-- bookkeeping: the registry after a handle creation is the one the call sites produced -/
+theorem finishNew_reg (s : S) (id : String) (k : Kind) (res : Reg × Option AddErr) :
+    (finishNew s id k res).1.reg = res.1 := by
+  unfold finishNew
+  split <;> rfl
+
+/-- `get_view` only appends -/
+theorem newView_grows (s : S) (id : String) : ∃ l, (newView s id).1.reg = s.reg ++ l := by
+  unfold newView
+  split
+  · exact ⟨[], by simp⟩
+  · rw [finishNew_reg]; exact fwAdds_grows _ _ _ _
+
+/-- EVERY operation of the protocol only appends to the registry (case analysis over all 13 operations) -/
+theorem exec_grows (s : S) (op : Op) : ∃ l, (exec s op).1.reg = s.reg ++ l := by
+  cases op with
+  | st x => simp only [exec, setSt]; split <;> exact ⟨[], by simp⟩
+  | view id => simp only [exec]; exact newView_grows s id
+  | subview id p => simp only [exec, newSubview]; split <;> exact ⟨[], by simp⟩
+  | stream id =>
+    simp only [exec]
+    unfold newStream
+    split
+    · exact ⟨[], by simp⟩
+    · rw [finishNew_reg]; exact fwAdds_grows _ _ _ _
+  | value n => simp only [exec, getValue]; split <;> exact ⟨[], by simp⟩
+  | modifier n =>
+    simp only [exec]
+    unfold registerModifier
+    split
+    · exact ⟨[], by simp⟩
+    · unfold getValue; split <;> exact ⟨[], by simp⟩
+  | producer n =>
+    simp only [exec]
+    unfold registerProducer
+    have hv : (getValue s n).1.reg = s.reg := by unfold getValue; split <;> rfl
+    split
+    · exact ⟨[], by simp⟩
+    · split
+      · exact ⟨[], by simp⟩
+      · simp only
+        split
+        · rename_i r h
+          obtain ⟨l, hl⟩ := fwAdd_grows h
+          exact ⟨l, by simp only [hl, hv]⟩
+        · exact ⟨[], by simp [hv]⟩
+  | table id k =>
+    simp only [exec]
+    unfold newTable
+    split
+    · exact ⟨[], by simp⟩
+    · cases k with
+      | false =>
+        simp only [Bool.false_eq_true, ↓reduceIte]
+        split
+        · rename_i h; simp at h
+        · rw [finishNew_reg]; exact fwAdds_grows _ _ _ _
+      | true =>
+        simp only [↓reduceIte]
+        obtain ⟨l1, h1⟩ := newView_grows s (id ++ ".view")
+        split
+        · exact ⟨l1, h1⟩
+        · rw [finishNew_reg]
+          obtain ⟨l2, h2⟩ := fwAdds_grows id lkpFile [("call", "table.call")] (newView s (id ++ ".view")).1.reg
+          exact ⟨l1 ++ l2, by rw [h2, h1, List.append_assoc]⟩
+  | obj id => simp only [exec, newObj]; split <;> exact ⟨[], by simp⟩
+  | add o n m b a r =>
+    simp only [exec]
+    unfold userAdd
+    split
+    · rename_i r' h; exact ⟨_, (add_ok_shape h).1⟩
+    · exact ⟨[], by simp⟩
+  | call o m e => exact ⟨[], by simp [exec]⟩
+  | pcall n => exact ⟨[], by simp [exec]⟩
+  | svc f t => exact ⟨[], by simp [exec]⟩
+  | create n => simp only [exec, createSimulants]; split <;> exact ⟨[], by simp⟩
+
+/-- … hence every program does (induction over the program) -/
+theorem run_grows : ∀ (ops : List Op) (s : S), ∃ l, (Viv.Svc.run s ops).reg = s.reg ++ l
+  | [], s => ⟨[], by simp [Viv.Svc.run]⟩
+  | op :: rest, s => by
+    obtain ⟨l1, h1⟩ := exec_grows s op
+    obtain ⟨l2, h2⟩ := run_grows rest (exec s op).1
+    exact ⟨l1 ++ l2, by simp only [Viv.Svc.run, h2, h1, List.append_assoc]⟩
+
+/-- **once constrained, forever the same verdict**: after ANY further history - other handles, state changes, calls
+that are admitted, refused or fail, attempts to constrain the method again, constraints on other methods - the
+wrapper on `o.m` admits exactly the states it was made with. The verdict depends on the state at call time only. -/
+theorem verdict_stable {s : S} {o m : String} {e : Entry} (h : find s.reg o m = some e) (ops : List Op) (st : String) :
+    verdict (Viv.Svc.run s ops).reg o m st = e.perm.contains st := by
+  obtain ⟨l, hl⟩ := run_grows ops s
+  unfold verdict
+  rw [hl, find_append_stable h]
+
+/-- calls never change anything (no memory of earlier calls, of who called, of what was in progress) -/
+theorem calls_are_pure (s : S) (o m : String) (e : Bool) (n f t : String) :
+    (exec s (.call o m e)).1 = s ∧ (exec s (.pcall n)).1 = s ∧ (exec s (.svc f t)).1 = s := ⟨rfl, rfl, rfl⟩
+
+
+/-! ### D. every handle a framework service hands out carries the constraint its call site declares -/
+
+/-- the table lookup of Model/Context.lean and the one of Model/Services.lean are the same function -/
+theorem permittedAt_eq (file target : String) : permittedAt file target = (tableEntry file target).map permitted := rfl
+
+/-- a framework call site that succeeds on a method without wrapper installs exactly the list the table declares for it (allow lists as they are, restrict lists complemented) -/
+theorem fwAdd_rule {r r' : Reg} {o m file target : String} {ps : List String}
+    (h : fwAdd r o m file target = .ok r') (hnew : find r o m = none) (hp : permittedAt file target = some ps) :
+    find r' o m = some ⟨o, o, m, ps⟩ := by
+  rw [permittedAt_eq] at hp
+  unfold fwAdd at h
+  cases hc : tableEntry file target with
+  | none => rw [hc] at hp; cases hp
+  | some c =>
+    rw [hc] at hp h
+    simp only [Option.map_some, Option.some.injEq] at hp
+    subst hp
+    simp only at h
+    cases hm : c.mode with
+    | allow =>
+      rw [hm] at h
+      simp only at h
+      obtain ⟨hr, -⟩ := add_ok_shape h
+      subst hr
+      rw [find_append_new hnew]
+      simp [permittedList, permitted, hm]
+    | restrict =>
+      rw [hm] at h
+      simp only at h
+      obtain ⟨hr, -, -, -, -, hne, -⟩ := add_ok_shape h
+      subst hr
+      rw [find_append_new hnew]
+      have hre : c.states.isEmpty = false := by
+        cases hs : c.states with
+        | nil => rw [hs] at hne; simp at hne
+        | cons _ _ => rfl
+      simp [permittedList, permitted, hm, hre]
+
+/-- no wrapper is found for a method no entry of that object mentions -/
+theorem find_none_of_methods {r : Reg} {o m : String} (h : ∀ e ∈ r, e.obj = o → e.method ≠ m) : find r o m = none := by
+  unfold find
+  rw [List.find?_eq_none]
+  intro e he
+  by_cases ho : e.obj = o
+  · have := h e he ho
+    simp [ho, this]
+  · simp [ho]
+
+/-- the entries after a framework call site are the old ones plus, at most, one for that very object and method -/
+theorem fwAdd_entries {r r' : Reg} {o m file target : String} (h : fwAdd r o m file target = .ok r') :
+    ∀ e ∈ r', e ∈ r ∨ (e.obj = o ∧ e.method = m) := by
+  unfold fwAdd at h
+  split at h
+  · injection h with h; subst h; intro e he; exact Or.inl he
+  · split at h <;>
+    · obtain ⟨hr, -⟩ := add_ok_shape h
+      subst hr
+      intro e he
+      rcases List.mem_append.mp he with h1 | h1
+      · exact Or.inl h1
+      · simp at h1; subst h1; exact Or.inr ⟨rfl, rfl⟩
+
+/-- all the call sites of one handle (distinct methods, object new): after a successful run EACH method carries its declared list - induction over the sites -/
+theorem fwAdds_rule (o file : String) : ∀ (ms : List (String × String)) (r r' : Reg),
+    fwAdds r o file ms = (r', none) → (∀ e ∈ r, e.obj = o → e.method ∉ ms.map Prod.fst) → (ms.map Prod.fst).Nodup →
+    ∀ m t, (m, t) ∈ ms → ∀ ps, permittedAt file t = some ps → find r' o m = some ⟨o, o, m, ps⟩
+  | [], _, _ => by intro _ _ _ m t hm; cases hm
+  | (m0, t0) :: rest, r, r' => by
+    intro h hfree hnd m t hm ps hp
+    unfold fwAdds at h
+    split at h
+    · rename_i r1 h1
+      have hnd' : (rest.map Prod.fst).Nodup := (List.nodup_cons.mp (by simpa using hnd)).2
+      have hm0 : m0 ∉ rest.map Prod.fst := (List.nodup_cons.mp (by simpa using hnd)).1
+      have hfree1 : ∀ e ∈ r1, e.obj = o → e.method ∉ rest.map Prod.fst := by
+        intro e he ho
+        rcases fwAdd_entries h1 e he with h2 | ⟨_, h2⟩
+        · intro hin
+          exact hfree e h2 ho (by simp only [List.map_cons, List.mem_cons]; exact Or.inr hin)
+        · rw [h2]; exact hm0
+      rcases List.mem_cons.mp hm with heq | hin
+      · injection heq with e1 e2
+        subst e1; subst e2
+        have hnew : find r o m = none := find_none_of_methods (fun e he ho => by
+          intro hmm
+          exact hfree e he ho (by simp [hmm]))
+        have := fwAdd_rule h1 hnew hp
+        obtain ⟨l, hl⟩ := fwAdds_grows o file rest r1
+        rw [h] at hl
+        simp only at hl
+        rw [hl]
+        exact find_append_stable this l
+      · exact fwAdds_rule o file rest r1 r' h hfree1 hnd' m t hin ps hp
+    · cases h
+
+def readerStates : List String :=
+  ["population_creation", "time_step__prepare", "time_step", "time_step__cleanup", "collect_metrics", "simulation_end", "report"]
+def writerStates : List String :=
+  ["population_creation", "time_step__prepare", "time_step", "time_step__cleanup", "collect_metrics"]
+
+/-- a handle creation that answers `ok` ran all its call sites without refusal -/
+theorem finishNew_ok {s s' : S} {id : String} {k : Kind} {res : Reg × Option AddErr}
+    (h : finishNew s id k res = (s', "ok")) : res.2 = none ∧ s'.reg = res.1 := by
+  unfold finishNew at h
+  split at h
+  · injection h with h1 _; subst h1; exact ⟨rfl, rfl⟩
+  · rename_i r e
+    injection h with _ h2
+    cases e <;> simp [showErr] at h2
+
+
+/-- what the working tree declares at the eight handle-level call sites -/
+theorem handle_sites :
+    permittedAt popFile "view.get" = some readerStates ∧ permittedAt popFile "view.update" = some writerStates ∧
+    permittedAt rndFile "stream.get_draw" = some readerStates ∧
+    permittedAt rndFile "stream.filter_for_probability" = some readerStates ∧
+    permittedAt rndFile "stream.filter_for_rate" = some readerStates ∧ permittedAt rndFile "stream.choice" = some readerStates ∧
+    permittedAt valFile "pipeline._call" = some readerStates ∧ permittedAt lkpFile "table.call" = some readerStates := by decide
+
+/-- the two replies differ (used to discard the refused branch) -/
+theorem not_ok_refused : ("refused" : String) ≠ "ok" := by decide
+
+/-- a view from `get_view` (any route, any admitted state, any component): `get` carries the readers' list,
+`update` the writers' -/
+theorem new_view_finds {s s' : S} {id : String} (h : newView s id = (s', "ok")) (fresh : ∀ e ∈ s.reg, e.obj ≠ id) :
+    find s'.reg id "get" = some ⟨id, id, "get", readerStates⟩ ∧
+    find s'.reg id "update" = some ⟨id, id, "update", writerStates⟩ := by
+  unfold newView at h
+  split at h
+  · injection h with _ h2; exact absurd h2 not_ok_refused
+  · obtain ⟨h1, h2⟩ := finishNew_ok h
+    have hf : fwAdds s.reg id popFile [("get", "view.get"), ("update", "view.update")] = (s'.reg, none) := by
+      rw [h2, ← h1]
+    have hfree : ∀ e ∈ s.reg, e.obj = id → e.method ∉ ([("get", "view.get"), ("update", "view.update")].map Prod.fst) :=
+      fun e he ho => absurd ho (fresh e he)
+    have R := fwAdds_rule id popFile _ _ _ hf hfree (by decide)
+    exact ⟨R "get" "view.get" (by simp) _ handle_sites.1, R "update" "view.update" (by simp) _ handle_sites.2.1⟩
+
+/-- a stream from `get_randomness_stream` (ordinary or CRN-initialising, any route): all four wrappers carry the readers' list -/
+theorem new_stream_finds {s s' : S} {id : String} (h : newStream s id = (s', "ok")) (fresh : ∀ e ∈ s.reg, e.obj ≠ id) :
+    ∀ m ∈ ["get_draw", "filter_for_probability", "filter_for_rate", "choice"],
+      find s'.reg id m = some ⟨id, id, m, readerStates⟩ := by
+  unfold newStream at h
+  split at h
+  · injection h with _ h2; exact absurd h2 not_ok_refused
+  · obtain ⟨h1, h2⟩ := finishNew_ok h
+    have hf : fwAdds s.reg id rndFile [("get_draw", "stream.get_draw"), ("filter_for_probability", "stream.filter_for_probability"),
+        ("filter_for_rate", "stream.filter_for_rate"), ("choice", "stream.choice")] = (s'.reg, none) := by
+      rw [h2, ← h1]
+    have hfree : ∀ e ∈ s.reg, e.obj = id → e.method ∉ ([("get_draw", "stream.get_draw"),
+        ("filter_for_probability", "stream.filter_for_probability"), ("filter_for_rate", "stream.filter_for_rate"),
+        ("choice", "stream.choice")].map Prod.fst) := fun e he ho => absurd ho (fresh e he)
+    have R := fwAdds_rule id rndFile _ _ _ hf hfree (by decide)
+    obtain ⟨-, -, k1, k2, k3, k4, -, -⟩ := handle_sites
+    intro m hm
+    simp only [List.mem_cons, List.not_mem_nil, or_false] at hm
+    rcases hm with rfl | rfl | rfl | rfl
+    · exact R _ "stream.get_draw" (by simp) _ k1
+    · exact R _ "stream.filter_for_probability" (by simp) _ k2
+    · exact R _ "stream.filter_for_rate" (by simp) _ k3
+    · exact R _ "stream.choice" (by simp) _ k4
+
+/-- every way through a stream (nested constrained calls, the empty-population shortcut, `sample_from_distribution`)
+ends in the readers' rule -/
+theorem stream_chain_rule {r : Reg} {id : String}
+    (hf : ∀ m ∈ ["get_draw", "filter_for_probability", "filter_for_rate", "choice"], find r id m = some ⟨id, id, m, readerStates⟩)
+    (m : String) (hm : m ∈ ["get_draw", "filter_for_probability", "filter_for_rate", "choice", "sample_from_distribution"])
+    (empty : Bool) (st : String) :
+    ((streamChain m empty).all fun x => verdict r id x st) = readerStates.contains st := by
+  have v : ∀ x ∈ ["get_draw", "filter_for_probability", "filter_for_rate", "choice"], verdict r id x st = readerStates.contains st := by
+    intro x hx
+    unfold verdict
+    rw [hf x hx]
+  have v1 := v "get_draw" (by simp)
+  have v2 := v "filter_for_probability" (by simp)
+  have v3 := v "filter_for_rate" (by simp)
+  have v4 := v "choice" (by simp)
+  simp only [List.mem_cons, List.not_mem_nil, or_false] at hm
+  rcases hm with rfl | rfl | rfl | rfl | rfl <;> cases empty <;>
+    simp [streamChain, v1, v2, v3, v4]
+
+
+/-- a lookup table from `build_table` (scalar kinds): `call` carries the readers' list -/
+theorem new_scalar_table_finds {s s' : S} {id : String} (h : newTable s id false = (s', "ok"))
+    (fresh : ∀ e ∈ s.reg, e.obj ≠ id) : find s'.reg id "call" = some ⟨id, id, "call", readerStates⟩ := by
+  unfold newTable at h
+  split at h
+  · injection h with _ h2; exact absurd h2 not_ok_refused
+  · simp only [Bool.false_eq_true, ↓reduceIte] at h
+    split at h
+    · rename_i hh; simp at hh
+    · obtain ⟨h1, h2⟩ := finishNew_ok h
+      have hf : fwAdds s.reg id lkpFile [("call", "table.call")] = (s'.reg, none) := by rw [h2, ← h1]
+      exact fwAdds_rule id lkpFile _ _ _ hf (fun e he ho => absurd ho (fresh e he)) (by decide) "call" "table.call" (by simp) _
+        handle_sites.2.2.2.2.2.2.2
+
+/-- `get_value` touches neither the registry, nor the state, nor the sources -/
+theorem getValue_keeps (s : S) (n : String) :
+    (getValue s n).1.reg = s.reg ∧ (getValue s n).1.st = s.st ∧ (getValue s n).1.sourced = s.sourced := by
+  unfold getValue; split <;> exact ⟨rfl, rfl, rfl⟩
+
+/-- `register_value_producer`: the pipeline object of that name gets its source and the readers' list on `_call` -/
+theorem producer_finds {s s' : S} {n : String} (h : registerProducer s n = (s', "ok")) (hnew : find s.reg n "_call" = none) :
+    find s'.reg n "_call" = some ⟨n, n, "_call", readerStates⟩ ∧ s'.sourced.contains n = true := by
+  unfold registerProducer at h
+  obtain ⟨g1, -, g3⟩ := getValue_keeps s n
+  split at h
+  · injection h with _ h2; exact absurd h2 not_ok_refused
+  · split at h
+    · injection h with _ h2; exact absurd h2 (by decide)
+    · simp only at h
+      split at h
+      · rename_i r hr
+        injection h with h1 _
+        subst h1
+        rw [g1] at hr
+        exact ⟨fwAdd_rule hr hnew handle_sites.2.2.2.2.2.2.1, by simp [g3]⟩
+      · rename_i e _
+        injection h with _ h2
+        cases e <;> simp [showErr] at h2
+
+/-- fetching a pipeline twice is fetching it once -/
+theorem getValue_idem (s : S) (n : String) : (getValue (getValue s n).1 n).1 = (getValue s n).1 := by
+  unfold getValue
+  split
+  · rename_i h; simp
+  · rename_i h
+    have : (kindOf { s with handles := s.handles ++ [(n, Kind.pipe)] } n).isSome = true := by
+      unfold kindOf
+      simp only [List.find?_append]
+      cases hh : List.find? (fun x => x.1 == n) s.handles <;> simp [List.find?]
+    simp [this]
+
+/-- a pipeline fetched with `get_value` BEFORE its source is registered is the object that `register_value_producer`
+constrains: fetching first changes neither the registry, nor the source, nor the reply -/
+theorem get_value_first_same (s : S) (n : String) :
+    (registerProducer (getValue s n).1 n).1.reg = (registerProducer s n).1.reg ∧
+    (registerProducer (getValue s n).1 n).1.sourced = (registerProducer s n).1.sourced ∧
+    (registerProducer (getValue s n).1 n).2 = (registerProducer s n).2 := by
+  obtain ⟨g1, g2, g3⟩ := getValue_keeps s n
+  have hsvc : svcAdmitted (getValue s n).1 valFile "self.register_value_producer" =
+      svcAdmitted s valFile "self.register_value_producer" := by simp [svcAdmitted, g1, g2]
+  unfold registerProducer
+  rw [hsvc, g3, getValue_idem]
+  split
+  · exact ⟨g1, g3, rfl⟩
+  · split
+    · exact ⟨g1, g3, rfl⟩
+    · exact ⟨rfl, rfl, rfl⟩
+
+/-- a pipeline that never got a source carries no constraint: it is "refused" by `DynamicValueError`, in every state -/
+theorem unsourced_pipeline {s : S} {n : String} (hk : kindOf s n = some .pipe) (hs : s.sourced.contains n = false)
+    (hc : find s.reg n "_call" = none) : pcall s n = "nosource" := by
+  unfold pcall verdict
+  have hs' : n ∉ s.sourced := by simpa using hs
+  simp [hk, hs', hc]
+
+/-- **F10 in model form**: a sub-view is created without any wrapper, so every call through it is admitted in every
+state - reads in `setup` / `post_setup`, updates in `simulation_end` / `report` included -/
+theorem subview_unconstrained {s s' : S} {id p : String} (h : newSubview s id p = (s', "ok"))
+    (fresh : ∀ e ∈ s.reg, e.obj ≠ id) (m st : String) : verdict s'.reg id m st = true := by
+  unfold newSubview at h
+  split at h
+  · injection h with _ h2; exact absurd h2 (by decide)
+  · injection h with h1 _
+    subst h1
+    unfold verdict
+    rw [find_none_of_fresh fresh]
+
+def shows (b : Bool) : String := if b then "admitted" else "refused"
+
+/-- a table and its inner view are different objects -/
+theorem view_suffix_ne (id : String) : id ++ ".view" ≠ id := by
+  intro h
+  have := congrArg String.length h
+  simp [String.length_append] at this
+
+/-- `get_view` adds entries for the new view only -/
+theorem newView_entries (s : S) (id : String) : ∀ e ∈ (newView s id).1.reg, e ∈ s.reg ∨ e.obj = id := by
+  unfold newView
+  split
+  · intro e he; exact Or.inl he
+  · rw [finishNew_reg]
+    -- two framework call sites, both for the object `id`
+    unfold fwAdds
+    split
+    · rename_i r1 h1
+      unfold fwAdds
+      split
+      · rename_i r2 h2
+        intro e he
+        simp only [fwAdds] at he
+        rcases fwAdd_entries h2 e he with h | ⟨h, _⟩
+        · rcases fwAdd_entries h1 e h with h' | ⟨h', _⟩
+          · exact Or.inl h'
+          · exact Or.inr h'
+        · exact Or.inr h
+      · intro e he
+        rcases fwAdd_entries h1 e he with h' | ⟨h', _⟩
+        · exact Or.inl h'
+        · exact Or.inr h'
+    · intro e he; exact Or.inl he
+
+/-- keyed / interpolated lookup tables read through a population view of their own (fetched inside `build_table`):
+both wrappers on the way carry the readers' list, so the call follows the readers' rule -/
+theorem new_keyed_table_finds {s s' : S} {id : String} (h : newTable s id true = (s', "ok"))
+    (fresh : ∀ e ∈ s.reg, e.obj ≠ id ∧ e.obj ≠ id ++ ".view") :
+    find s'.reg id "call" = some ⟨id, id, "call", readerStates⟩ ∧
+    find s'.reg (id ++ ".view") "get" = some ⟨id ++ ".view", id ++ ".view", "get", readerStates⟩ := by
+  unfold newTable at h
+  split at h
+  · injection h with _ h2; exact absurd h2 not_ok_refused
+  · simp only [↓reduceIte] at h
+    split at h
+    · rename_i hne
+      injection h with _ h2
+      rw [h2] at hne
+      simp at hne
+    · rename_i hok
+      have hv : (newView s (id ++ ".view")).2 = "ok" := by simpa using hok
+      have hview : newView s (id ++ ".view") = ((newView s (id ++ ".view")).1, "ok") := by rw [← hv]
+      obtain ⟨g1, -⟩ := new_view_finds hview (fun e he => (fresh e he).2)
+      obtain ⟨h1, h2⟩ := finishNew_ok h
+      have hfresh1 : ∀ e ∈ (newView s (id ++ ".view")).1.reg, e.obj ≠ id := by
+        intro e he
+        rcases newView_entries s (id ++ ".view") e he with h' | h'
+        · exact (fresh e h').1
+        · rw [h']; exact view_suffix_ne id
+
+      have hf : fwAdds (newView s (id ++ ".view")).1.reg id lkpFile [("call", "table.call")] = (s'.reg, none) := by
+        rw [h2, ← h1]
+      have c1 := fwAdds_rule id lkpFile _ _ _ hf (fun e he ho => absurd ho (hfresh1 e he)) (by decide) "call" "table.call" (by simp) _
+        handle_sites.2.2.2.2.2.2.2
+      obtain ⟨l, hl⟩ := fwAdds_grows id lkpFile [("call", "table.call")] (newView s (id ++ ".view")).1.reg
+      rw [hf] at hl
+      simp only at hl
+      exact ⟨c1, by rw [hl]; exact find_append_stable g1 l⟩
+
+/-- the reply of a call through a view (incl. sub-views) is the wrapper's verdict in the current state -/
+theorem call_of_view {s : S} {o m : String} (e : Bool) (hk : kindOf s o = some .view) :
+    Viv.Svc.call s o m e = shows (verdict s.reg o m s.st) := by
+  unfold Viv.Svc.call callVerdict callChain shows
+  simp [hk]
+
+
+/-! ### E. … and keeps it, whatever happens afterwards -/
+
+/-- for handles obtained at any point by any component (any admitted state, any earlier history `s`), after ANY later
+history `ops`: view reads follow the readers' rule and view updates the writers' rule in every state -/
+theorem view_rule_forever {s s' : S} {id : String} (h : newView s id = (s', "ok")) (fresh : ∀ e ∈ s.reg, e.obj ≠ id)
+    (ops : List Op) (st : String) :
+    verdict (Viv.Svc.run s' ops).reg id "get" st = readerStates.contains st ∧
+    verdict (Viv.Svc.run s' ops).reg id "update" st = writerStates.contains st := by
+  obtain ⟨h1, h2⟩ := new_view_finds h fresh
+  exact ⟨verdict_stable h1 ops st, verdict_stable h2 ops st⟩
+
+/-- every route through a stream obtained at any point follows the readers' rule in every state after any later history -/
+theorem stream_rule_forever {s s' : S} {id : String} (h : newStream s id = (s', "ok")) (fresh : ∀ e ∈ s.reg, e.obj ≠ id)
+    (ops : List Op) (m : String)
+    (hm : m ∈ ["get_draw", "filter_for_probability", "filter_for_rate", "choice", "sample_from_distribution"])
+    (empty : Bool) (st : String) :
+    ((streamChain m empty).all fun x => verdict (Viv.Svc.run s' ops).reg id x st) = readerStates.contains st := by
+  have hf := new_stream_finds h fresh
+  obtain ⟨l, hl⟩ := run_grows ops s'
+  apply stream_chain_rule _ m hm
+  intro x hx
+  rw [hl]
+  exact find_append_stable (hf x hx) l
+
+/-- a sourced pipeline follows the readers' rule in every state after any later history -/
+theorem pipeline_rule_forever {s s' : S} {n : String} (h : registerProducer s n = (s', "ok"))
+    (hnew : find s.reg n "_call" = none) (ops : List Op) (st : String) :
+    verdict (Viv.Svc.run s' ops).reg n "_call" st = readerStates.contains st :=
+  verdict_stable (producer_finds h hnew).1 ops st
+
+/-- a scalar lookup table follows the readers' rule in every state after any later history -/
+theorem table_rule_forever {s s' : S} {id : String} (h : newTable s id false = (s', "ok"))
+    (fresh : ∀ e ∈ s.reg, e.obj ≠ id) (ops : List Op) (st : String) :
+    verdict (Viv.Svc.run s' ops).reg id "call" st = readerStates.contains st :=
+  verdict_stable (new_scalar_table_finds h fresh) ops st
+
+/-- a keyed / interpolated lookup table (its own wrapper and its inner view's) follows the readers' rule in every state after any later history -/
+theorem keyed_table_rule_forever {s s' : S} {id : String} (h : newTable s id true = (s', "ok"))
+    (fresh : ∀ e ∈ s.reg, e.obj ≠ id ∧ e.obj ≠ id ++ ".view") (ops : List Op) (st : String) :
+    (verdict (Viv.Svc.run s' ops).reg id "call" st && verdict (Viv.Svc.run s' ops).reg (id ++ ".view") "get" st) =
+      readerStates.contains st := by
+  obtain ⟨h1, h2⟩ := new_keyed_table_finds h fresh
+  rw [verdict_stable h1 ops st, verdict_stable h2 ops st]
+  simp
+
+/-- the manager-level services (registration, `register_simulants`, the context's `get_population`) are constrained
+when the managers are set up and stay so: no later operation changes their verdict -/
+theorem manager_services_forever (file target : String) (e : Entry) (h : find boot file target = some e)
+    (ops : List Op) (st : String) : verdict (Viv.Svc.run ({} : S) ops).reg file target st = e.perm.contains st :=
+  verdict_stable (s := ({} : S)) h ops st
+
+
+/-! ### E'. the simulant creator (constrained since F35) -/
+
+/-- the wrapper on the creator exists once the managers are set up, with the writers' list -/
+theorem creator_constrained_at_boot :
+    find boot popFile "self._create_simulants" = some ⟨popFile, popFile, "self._create_simulants", writerStates⟩ := by decide
+
+/-- **the creator for ever**: whatever handles were obtained, constraints added or attempted, calls made (admitted, refused,
+failing) and states passed since the managers were set up, the creator - through every route, they all reach the one re-bound
+attribute - is admitted exactly in the writers' states … -/
+theorem creator_rule_forever (ops : List Op) (st : String) :
+    verdict (Viv.Svc.run ({} : S) ops).reg popFile "self._create_simulants" st = writerStates.contains st := by
+  rw [verdict_stable (s := ({} : S)) creator_constrained_at_boot ops st]
+
+/-- … that is, among the declared states it is refused exactly in initialization, setup, post_setup, simulation_end and report -/
+theorem creator_refused_exactly (ops : List Op) (st : String) (hst : st ∈ states) :
+    verdict (Viv.Svc.run ({} : S) ops).reg popFile "self._create_simulants" st = false ↔
+      st ∈ ["initialization", "setup", "post_setup", "simulation_end", "report"] := by
+  rw [creator_rule_forever]
+  have hs : st ∈ ["initialization", "setup", "post_setup", "population_creation", "time_step__prepare", "time_step",
+      "time_step__cleanup", "collect_metrics", "simulation_end", "report"] := by
+    have : states = ["initialization", "setup", "post_setup", "population_creation", "time_step__prepare", "time_step",
+      "time_step__cleanup", "collect_metrics", "simulation_end", "report"] := by decide
+    rw [← this]; exact hst
+  simp only [List.mem_cons, List.not_mem_nil, or_false] at hs
+  rcases hs with rfl | rfl | rfl | rfl | rfl | rfl | rfl | rfl | rfl | rfl <;> decide
+
+/-- in any model state: a creator call that the wrapper refuses returns the state unchanged -/
+theorem create_refused {s : S} (count : Nat) (h : verdict s.reg popFile "self._create_simulants" s.st = false) :
+    exec s (.create count) = (s, "refused") := by
+  simp [exec, createSimulants, svcAdmitted, h]
+
+/-- in any model state: a creator call that the wrapper admits adds the rows and touches nothing else -/
+theorem create_admitted {s : S} (count : Nat) (h : verdict s.reg popFile "self._create_simulants" s.st = true) :
+    exec s (.create count) = ({ s with pop := s.pop + count }, "admitted") := by
+  simp [exec, createSimulants, svcAdmitted, h]
+
+/-- **a refused creator call changes nothing** (the wrapper answers before `_create_simulants` extends the state table) -
+after any history, in any state outside the writers' states, for any count -/
+theorem creator_refused_changes_nothing (ops : List Op) (st : String) (count : Nat)
+    (hst : writerStates.contains st = false) :
+    exec { Viv.Svc.run ({} : S) ops with st := st } (.create count) = ({ Viv.Svc.run ({} : S) ops with st := st }, "refused") :=
+  create_refused count (by show verdict _ _ _ st = false; rw [creator_rule_forever ops st, hst])
+
+/-- … and an admitted one adds exactly `count` rows and nothing else -/
+theorem creator_admitted_adds_rows (ops : List Op) (st : String) (count : Nat) (hst : writerStates.contains st = true) :
+    exec { Viv.Svc.run ({} : S) ops with st := st } (.create count) =
+      ({ Viv.Svc.run ({} : S) ops with st := st, pop := (Viv.Svc.run ({} : S) ops).pop + count }, "admitted") :=
+  create_admitted count (by show verdict _ _ _ st = true; rw [creator_rule_forever ops st, hst])
+
+/-! ### F. the managers' own services on the stateful model, and a whole program -/
+
+/-- the wrappers that exist once the managers are set up are exactly what the table declares, in every state -/
+theorem boot_matches_table :
+    (Viv.Gen.constraints.all fun e => handleTargets.contains e.method ||
+      states.all fun st => verdict boot e.file e.method st == (permitted e).contains st) = true := by decide
+
+/-- registration services: `setup` only; `register_simulants` and the simulant creator: the writers' rule; the context's `get_population`
+(also what `InteractiveContext.get_population` is re-bound over): the readers' rule -/
+theorem boot_services_rule :
+    (states.all fun st =>
+      (registrationServices.all fun (f, m) => verdict boot f m st == (st == "setup")) &&
+      verdict boot rndFile "self.register_simulants" st == writerStates.contains st &&
+      verdict boot popFile "self._create_simulants" st == writerStates.contains st &&
+      verdict boot "framework/engine.py" "self.get_population" st == readerStates.contains st) = true := by decide
+
+/-- non-vacuity: a whole program - a pipeline fetched before its source exists, a view, a sub-view, a stream, keyed and
+scalar tables, two user objects that share a name, an attempt to widen `view.get` - and the verdict of every kind of
+call in every state -/
+def demo : List Op :=
+  [.st "setup", .value "w", .view "v", .subview "sv" "v", .stream "s", .producer "w", .table "t" true, .table "u" false,
+   .obj "h", .obj "h2", .add "h" "nm" "m" true ["time_step"] [], .add "h2" "nm" "m" true ["report"] [],
+   .add "v" "v" "get" true states [], .value "nosrc"]
+
+set_option maxRecDepth 4000 in
+example : (states.all fun st =>
+    let s := { Viv.Svc.run ({} : S) demo with st := st }
+    call s "v" "get" false == shows (readerStates.contains st) &&
+    call s "v" "update" false == shows (writerStates.contains st) &&
+    call s "sv" "get" false == "admitted" && call s "sv" "update" true == "admitted" &&
+    call s "s" "filter_for_rate" false == shows (readerStates.contains st) &&
+    call s "s" "sample_from_distribution" true == shows (readerStates.contains st) &&
+    call s "t" "call" false == shows (readerStates.contains st) &&
+    call s "u" "call" false == shows (readerStates.contains st) &&
+    pcall s "w" == shows (readerStates.contains st) &&
+    pcall s "nosrc" == "nosource" &&
+    call s "h" "m" false == shows (st == "time_step") &&
+    call s "h2" "m" false == "admitted" &&
+    call s "zz" "m" false == "bad-op") = true := by decide
+
+set_option maxRecDepth 4000 in
+example :
+    (exec (Viv.Svc.run ({} : S) demo) (.add "v" "v" "get" true states [])).2 = "err:constraint" ∧
+    (exec (Viv.Svc.run ({} : S) demo) (.add "h2" "nm" "m" true ["report"] [])).2 = "err:constraint" ∧
+    (exec (Viv.Svc.run ({} : S) demo) (.add "h2" "nm" "m2" true [] ["report", "nope"])).2 = "err:lifecycle" ∧
+    (exec (Viv.Svc.run ({} : S) demo) (.add "sv" "sv" "get" true [] ["setup", "post_setup"])).2 = "ok" ∧
+    (exec { Viv.Svc.run ({} : S) demo with st := "post_setup" } (.stream "late")).2 = "refused" ∧
+    (exec { Viv.Svc.run ({} : S) demo with st := "post_setup" } (.view "late")).2 = "ok" := by decide
 
 -- non-vacuity: the table is not empty and the three classes are all present in it
 example : Viv.Gen.constraints.length ≥ 16 := by decide
